@@ -107,6 +107,8 @@ Expected ==
   [error |-> FirstError, total |-> Total,
    objects |-> [k \in DOMAIN All |-> [pos |-> Pos(k), len |-> All[k].len, fill |-> All[k].fill,
                                        links |-> [i \in DOMAIN All[k].links |-> [pos |-> All[k].links[i].pos, width |-> All[k].links[i].width,
+                                                                                   to |-> All[k].links[i].to, whence |-> All[k].links[i].whence,
+                                                                                   bias |-> All[k].links[i].bias,
                                                                                    value |-> LinkValue(k, All[k].links[i]).v]]]]]
 
 End ==
